@@ -120,6 +120,10 @@ func (e *Engine) VerifyFunc(fn *ssa.Function, spec *FuncSpec) (res *FuncResult) 
 	for _, r := range spec.Requires {
 		st.assume(pre.evalBool(r.E))
 	}
+	for _, r := range spec.Assumes {
+		st.assume(pre.evalBool(r.E))
+		e.Assumptions["entry condition of "+fn.String()+" assumed in the proof of its body and NOT checked at its call sites: "+r.Text] = true
+	}
 	for _, ap := range spec.Applies {
 		e.applyLemma(st, pre, ap, "entry", fn.Pos())
 	}
